@@ -113,6 +113,19 @@ CHECKS = {
          "followed by a disconnect (a silent stall is outside the statement). Nothing is required of what the attacker receives.",
     technique="TLA+ spec + TLC; TLC-generated attack scripts replayed into the real daemon; TLC trace validation (monitor)",
     ref="6/C05"),
+ "C12": dict(
+    category="model_checking",
+    text="Context.tla models serving threads with thread-local call context and response annotations (requests that set an annotation, raise, "
+         "run oneway, ping, handshake) and is model-checked for AnnOwn / CtxOwn; it also shows the pinned behaviour (clearing only after a normal "
+         "reply) violates AnnOwn. Gen_Ctx.tla enumerates request histories of two clients over 14 request kinds; raw clients (which see every "
+         "reply with all its annotations) drive a real daemon as multiplex server, as thread pool of one worker (worker reused by the next "
+         "connection) and of three; methods snapshot the context they see (connection, peer, sequence number, request annotations, correlation "
+         "id, serializer, flags), also inside oneway threads; a Proxy pass covers the client-side clause; TLC validates every run against "
+         "Trace_Ctx.tla.",
+    note="Trusted: annotation keys / correlation ids encode the request token; in-memory transport; TLC. Server threads run to quiescence between "
+         "client steps: interleavings of two requests inside handleRequest are not explored (per-thread context is thread-local by construction).",
+    technique="TLA+ spec + TLC; TLC-generated request histories replayed into the real daemon; TLC trace validation (monitor)",
+    ref="6/C12"),
 }
 NOT_YET = {}
 ALL = ["C%02d" % i for i in range(1, 21)]
